@@ -65,7 +65,7 @@ func (s *vfSizedServer) ServerStream(_ context.Context, req *connect.Request[con
 // TestVerifC19ClientSharp: the reference client accepts a response of exactly
 // its receive limit and reports one byte more as resource_exhausted.
 func TestVerifC19ClientSharp(t *testing.T) {
-	rep := verifkit.Begin("C19", "client-sharp", "real reference client with message_receive_limit L in {64, 4096, 204800} against a crafted connect-go server answering unary and server-stream responses of exactly L-1, L, L+1 serialized bytes x {Connect, gRPC, gRPC-Web} x 6 compressions x {all-zero, incompressible}; oracle: <= L delivered, L+1 resource_exhausted; distinct = (limit, protocol, compression, padding, delta, rpc)")
+	rep := verifkit.Begin("C19", "client-sharp", "real reference client with message_receive_limit L in {64, 4096, 204800, 1048576 (the runner's own client limit)} against a crafted connect-go server answering unary and server-stream responses of exactly L-1, L, L+1 serialized bytes x {Connect, gRPC, gRPC-Web} x 6 compressions x {all-zero, incompressible}; oracle: <= L delivered, L+1 resource_exhausted; distinct = (limit, protocol, compression, padding, delta, rpc)")
 	defer rep.Write()
 	mux := http.NewServeMux()
 	mux.Handle(conformancev1connect.NewConformanceServiceHandler(&vfSizedServer{},
@@ -83,7 +83,7 @@ func TestVerifC19ClientSharp(t *testing.T) {
 	defer cl.Stop()
 	comps := []conformancev1.Compression{1, 2, 3, 4, 5, 6}
 	names := map[conformancev1.Compression]string{1: "identity", 2: "gzip", 3: "br", 4: "zstd", 5: "deflate", 6: "snappy"}
-	for _, L := range []int{64, 4096, 200 * 1024} {
+	for _, L := range []int{64, 4096, 200 * 1024, 1 << 20} {
 		for _, pr := range []conformancev1.Protocol{1, 2, 3} {
 			for _, comp := range comps {
 				for _, zero := range []bool{true, false} {
